@@ -9,6 +9,7 @@ CONSTANTS
   UnsatGe = TRUE
   ImsLe = TRUE
   ImsLocalTime = FALSE
+  ImsNotAfterNow = FALSE
   Tokens <- TravTokens
   MaxTokens = 5
   StartPaths <- EmptyOnly
@@ -16,6 +17,10 @@ CONSTANTS
   Ranges <- NoRangeOnly
   Zones <- UtcOnly
   ImsFor <- NoImsOnly
+  Clocks <- PastOnly
+  MStates <- AbsentOnly
+  MaxReq = 1
+  MemoResolved = FALSE
 INVARIANT Containment
 INVARIANT ServedIsInside
 INVARIANT NothingElseIs404
@@ -28,3 +33,5 @@ INVARIANT ZeroSizeIgnoresRange
 INVARIANT UnsatCarriesSize
 INVARIANT NotModifiedNoBody
 INVARIANT DecisionIndependentOfZone
+INVARIANT DecisionIndependentOfClock
+INVARIANT ResponseFollowsFileSystem
